@@ -449,7 +449,7 @@ func init() {
 			}
 			defer sys.Close()
 			r := e.Rand("c09sys", c.Strategy, c.Max, c.Idx)
-			keys := []string{"10.1.1.1", "2001:db8::9", "not-an-ip", "a b", strings.Repeat("k", 200), "10.1.1.1 ", " 10.1.1.2", "x,y"}
+			keys := []string{"10.1.1.1", "2001:db8::9", "2001:db8::1", "2001:db8::2", "fe80::1%eth0", "10.1.1.11", "not-an-ip", "a b", strings.Repeat("k", 200), "10.1.1.1 ", " 10.1.1.2", "x,y"}
 			type cl struct {
 				hdr  [][2]string
 				attr string
